@@ -80,6 +80,8 @@ func drawC07(rt *rapid.T) *Case {
 		{multi(e(k2), e("zz1"), e(k1), e("zz0"), e(k2), e("zz2"))}, {wild, multi(e("z"), e("b"), e("zz"), e("a"), e("b"), e("B"), e("aa"))},
 		{rec(multi(e("z"), e("a"), e("zz3"), e("B"), e("a"), e("zz4")))},
 		// a function that re-enters the parsed function in the middle of a traversal
+		// user functions inside the filter of an object: they are called member by member, in key order
+		{exists(fn("f1", false))}, {exists(name(k1), fn("f4", false))}, {rec(exists(fn("f1", false)))}, {wild, exists(fn("f4", false))}, {exists(wild, fn("g1", true))},
 		{rec(wild), fn("fre", false)}, {wild, fn("fre", false)}, {rec(name(k1)), fn("fre", false)}, {rec(exists(name(k1))), fn("fre", false)}, {multi(w, e(k1)), fn("fre", false)},
 	}
 	var p *gen.Path
@@ -225,6 +227,13 @@ func checkC07(c *Case, st *Stats) string {
 		_, _ = f(c07Other[reentries%len(c07Other)])
 	}
 	other, _ := jsonpath.Parse("$..*")
+	// the same path in accessor mode: the accessors come in the same order and lead to the same values
+	fa, err := jsonpath.Parse(c.Path, BuildConfig(nil, true, true))
+	if err != nil {
+		return fmt.Sprintf("generated path was rejected by Parse in accessor mode: %v", err)
+	}
+	firstLog := ""
+	haveLog := false
 	reps := c.Ints[len(c.Ints)-1]
 	layouts := c.Ints[:len(c.Ints)-1]
 	res := spec.Eval(c.AST, c.Doc.Build(false), gen.PureFuncs{})
@@ -249,8 +258,40 @@ func checkC07(c *Case, st *Stats) string {
 			}
 		}
 		for r := 0; r < reps; r++ {
+			rec.Calls, rec.Errs = nil, 0
 			got, rerr := f(doc)
 			st.Eval(1)
+			// the order in which user functions meet the values is part of the visiting order
+			if log := callLogString(rec); !haveLog {
+				firstLog, haveLog = log, true
+				if len(rec.Calls) >= 2 {
+					st.Class("call-order-compared")
+				}
+			} else if log != firstLog {
+				return fmt.Sprintf("copy %d (layout %d) repetition %d: user functions were called in a different order than in the first evaluation:\n   now   %s\n   first %s", li, layout, r, log, firstLog)
+			}
+			if r == 0 {
+				ga, aerr := fa(doc)
+				st.Eval(1)
+				if (aerr == nil) != (rerr == nil) {
+					return fmt.Sprintf("copy %d: plain mode (%s, %v) but accessor mode (%d accessors, %v)", li, JSONString(got), rerr, len(ga), aerr)
+				}
+				if aerr == nil {
+					if len(ga) != len(want) {
+						return fmt.Sprintf("copy %d: accessor mode returned %d accessors, expected %d values", li, len(ga), len(want))
+					}
+					for i, v := range ga {
+						a, ok := v.(jsonpath.Accessor)
+						if !ok || a.Get == nil {
+							return fmt.Sprintf("copy %d: accessor-mode result %d is %T", li, i, v)
+						}
+						if x := a.Get(); !reflect.DeepEqual(x, want[i]) {
+							return fmt.Sprintf("copy %d (layout %d): accessor %d leads to %s, the sequence has %s there (whole sequence %s)", li, layout, i, JSONString(x), JSONString(want[i]), JSONString(want))
+						}
+					}
+					st.Class("accessor-mode-sequence")
+				}
+			}
 			if len(want) == 0 {
 				if rerr == nil {
 					return fmt.Sprintf("copy %d repetition %d: SPEC selects nothing, library returned %s", li, r, JSONString(got))
